@@ -159,8 +159,6 @@ class C05(Prop):
                     classes.add("container>=2")
             if n[0] == "A" and len(n[1]) >= 2:
                 classes.add("container>=2")
-        if model.depth_of(jv) >= 17:
-            classes.add("depth>=17")
             for s in strs:
                 if any(c < 0x20 or c in (0x22, 0x5C) for c in s):
                     classes.add("escape_needed")
@@ -168,6 +166,8 @@ class C05(Prop):
                     classes.add("control_char")
                 if any(c >= 0xF0 for c in s):
                     classes.add("non_bmp")
+        if model.depth_of(jv) >= 17:
+            classes.add("depth>=17")
         for c in classes:
             stats.cls(c)
         if classes & {"container>=2", "escape_needed", "non_integer_number"}:
